@@ -167,15 +167,15 @@ def generated_tasks(tier, seed):
     try:
         pres = [(pl, True, t) for pl, t in G.core_preconditions()]
         effs = [(pl, True, t) for pl, t in G.core_effects()]
-        n = 80 if tier == "quick" else 1500
+        # every curated program in both tiers; the sampled ones are fewer in the quick tier
+        n = 40 if tier == "quick" else 1500
         pres += G.sampled_programs(seed * 17 + 1, n, "pre")
         effs += G.sampled_programs(seed * 17 + 2, n, "eff")
     finally:
         G.CONSTS[:] = old
     tasks = []
     m = max(len(pres), len(effs))
-    step = 2 if tier == "quick" else 1
-    for i in range(0, m, step):
+    for i in range(0, m):
         pl, const, pre = pres[i % len(pres)]
         pl2, const2, eff = effs[i % len(effs)]
         if pl2 != pl:
